@@ -1,4 +1,5 @@
 import MsqProofs.Lemmas.TQueryM
+import MsqProofs.Lemmas.TQueryJ
 import MsqModel.Driver.ShowVal
 /-!
 # C03 / C02 / C01 — T-parse closed under nesting: queries and expressions, one mutually recursive fragment
@@ -28,10 +29,13 @@ operation — e.g. `;`, a closing context):
 * `C03.tquery_statement` : the same through `pStatement` (one iteration of the loop of `parse_statements`): `ok (.select q, rest)`;
 * `C02.tparse3` : the expression half — `FragE3 d e → stops2 d rest → 20 * sizeL (toksE3 d noX e) + 15 ≤ fuel →
   pOr d fuel (toksE3 d noX e ++ rest) = ok (e, rest)`; `C02.scalar_subquery`, `C02.exists_subquery`, `C02.in_subquery` : the
-  three sub-query positions (the child cursor holds exactly the query and is closed);
+  three sub-query positions (the child cursor holds exactly the query and is closed); `TQ.frag2_sub_all` : `Frag2 ⊆ FragE3` with equal
+  renderings, `C02.tparse2_instance` : the old theorem as an instance;
 * `C03.set_operation_chain` : `s op₁ s₁ op₂ s₂ …` parses to `.union (some []) s [(op₁, s₁), (op₂, s₂), …]` — branches in order, each
   operator in its slot; `C03.set_operation_slots`;
 * `C03.derived_table` : `SELECT … FROM (q) AS a` parses to the SELECT whose FROM slot is `[.mk (.sub q) a]` — body and alias;
+* `C03.fragS_sub_query` : `FragS ⊆ FragQ` with equal renderings; `C03.tselect_instance`, `C03.tselect_statement_instance` : the old
+  theorems as instances (fuel bound `+ 6` instead of `+ 30`);
 * `C03.rendering_determines_query` : equal renderings, equal trees;
 * `C01.query_round_trip_tokens` : `pSelectStmt d fuel none (toksQ d noX q) = ok (q, [])`.
 -/
@@ -189,6 +193,45 @@ theorem in_subquery (d : Gen.D) (n0 : Bool) (l : Expr) (q : Query) (hf : FragE3 
     (hfuel : 20 * sizeL (toksE3 d noX (.kw .in_ n0 l (.subQuery q))) + 15 ≤ fuel) :
     pOr d fuel (toksE3 d noX (.kw .in_ n0 l (.subQuery q)) ++ rest) = .ok (.kw .in_ n0 l (.subQuery q), rest) :=
   tparse3 d _ hf rest hr fuel hfuel
+end C02
+
+namespace TQ
+/-- the nested expression fragment contains the larger expression fragment of Props/C02T2.lean (hence the operator fragment of
+Props/C02T.lean: `TP2.frag_sub_all`), and on it the token printers agree -/
+theorem frag2_sub_all (d : Gen.D) (ch : Expr → Bool) (e : Expr) (h : TP2.Frag2 d e = true) :
+    FragE3 d e = true ∧ toksE3 d ch e = TP2.toksE2 d ch e :=
+  let r := frag2_sub (d := d) (ch := ch) (TP2.sz2 e) e (Nat.le_refl _) h
+  ⟨r.1, r.2.1⟩
+end TQ
+namespace C03
+/-- **`FragS ⊆ FragQ`**: every SELECT of the fragment of `C03.tselect` is (as a single-SELECT query) in the nested fragment, with the same
+rendering -/
+theorem fragS_sub_query (d : Gen.D) (s : Select) (hs : FragS d s = true) :
+    FragQ d (.single s) = true ∧ toksQ d noX (.single s) = toksS d s := by
+  obtain ⟨h1, h2⟩ := fragS_sub s hs
+  exact ⟨by simpa [FragQ] using h1, by simpa [toksQ] using h2⟩
+/-- `C03.tselect` (Props/C03T.lean) as an instance of the SELECT half of the nested development, with the smaller fuel bound `+ 6`
+(continuations of the nested fragment: additionally not `OVER`) -/
+theorem tselect_instance (d : Gen.D) (s : Select) (hs : FragS d s = true) (rest : List Tok) (hr : Bd3 d 7 rest = true)
+    (fuel : Nat) (hfuel : 20 * sizeL (toksS d s) + 6 ≤ fuel) : pSingle d fuel [] (toksS d s ++ rest) = .ok (s, rest) := by
+  obtain ⟨h1, h2⟩ := fragS_sub s hs
+  rw [← h2] at hfuel ⊢
+  exact (srec_of chOK_noX s h1).parse rest hr fuel hfuel
+/-- `C03.tselect_statement` as an instance of `tquery_statement` -/
+theorem tselect_statement_instance (d : Gen.D) (s : Select) (hs : FragS d s = true) (rest : List Tok) (hr : stopsQ d rest = true)
+    (fuel : Nat) (hfuel : 20 * sizeL (toksS d s) + 9 ≤ fuel) : pStatement d fuel (toksS d s ++ rest) = .ok (.select (.single s), rest) := by
+  obtain ⟨h1, h2⟩ := fragS_sub_query d s hs
+  rw [← h2] at hfuel ⊢
+  exact tquery_statement d (.single s) h1 rest hr fuel hfuel
+end C03
+
+namespace C02
+/-- `C02.tparse2` (Props/C02T2.lean, without redundant brackets) as an instance of `tparse3` -/
+theorem tparse2_instance (d : Gen.D) (e : Expr) (hf : TP2.Frag2 d e = true) (rest : List Tok) (hr : TP2.stops2 d rest = true)
+    (fuel : Nat) (hfuel : 20 * sizeL (TP2.toksE2 d noX e) + 15 ≤ fuel) : pOr d fuel (TP2.toksE2 d noX e ++ rest) = .ok (e, rest) := by
+  obtain ⟨h1, h2⟩ := frag2_sub_all d noX e hf
+  rw [← h2] at hfuel ⊢
+  exact tparse3 d e h1 rest hr fuel hfuel
 end C02
 
 namespace C01
